@@ -4,7 +4,7 @@ from .. import common, gen, oracle, modelio, pipefam, pool, cli
 from . import c01
 
 RULE = ("pile-up generator (20-45 extra TEs of one group stacked on one gene's flanks and body, on top of the C01 mixture); "
-        "every fourth case in an output directory used before (same / extended / other genome id); EVERY cell of every result file is range-checked (finite, 0 <= v <= 1) for real groups and Total_TE_Density; "
+        "plus one group of 700 elements (thorough: 300 to 2600) with ~100 fragments nested in single long elements; every fourth case in an output directory used before (same / extended / other genome id); EVERY cell of every result file is range-checked (finite, 0 <= v <= 1) for real groups and Total_TE_Density; "
         "non-trivial = same-group overlap present; distinct = canonical JSON of the case")
 
 
@@ -46,6 +46,8 @@ def run(chk):
     n = 100 if chk.tier == "quick" else 2500
     r = chk.rng("cases")
     cases = pipefam.load_corpus("C03") + [gen.gen_pileup(r) for _ in range(n)]
+    # groups far larger than any pile-up: hundreds of same-group elements, scans with ~100 hits
+    cases += [gen.gen_large_group(r, sz) for sz in ([700] if chk.tier == "quick" else [300, 700, 1500, 2600])]
     # every fourth case runs in an output directory already used for another pair (same chromosome names) under the same
     # genome id, an id that extends it, or an unrelated one
     for i, c in enumerate(cases):
